@@ -359,7 +359,7 @@ def replay(harness, inp):
         exp = b"data" if (not inp["em"] and attrs is not None and inp["typ"] == "Metadata") else b"DEC:data"
         return None if out == exp else "decrypt with EncryptMetadata=%s on an object of Type %r returns %r, expected %r" % (inp["em"], inp["typ"], out, exp)
     if harness == "H2_where":
-        return "decipher placement differs for %r" % (inp,)
+        return core.replay_by_choices(h2_where, {}, inp["_choices"])
     raise KeyError(harness)
 
 
